@@ -521,16 +521,42 @@ impl AsEntry {
     ///
     /// Returns the total length of the associated data and an iterator over the associated data
     /// slices.
+    ///
+    /// The position of the entry is determined by identity, not by value: if `self` is (a
+    /// reference to) an entry stored in `path_segment`, all entries before it are covered. If
+    /// it is not part of the segment (yet), it is treated as the entry to be appended and all
+    /// entries of the segment are covered. A segment may contain equal entries, so the value of
+    /// the entry does not determine its position.
     #[inline]
     pub fn associated_data<'seg>(
         &self,
         path_segment: &'seg PathSegment<SignedAsEntry>,
     ) -> (usize, impl Iterator<Item = &'seg [u8]>) {
+        let position = path_segment
+            .as_entries
+            .iter()
+            .position(|e| std::ptr::eq(&e.entry, self))
+            .unwrap_or(path_segment.as_entries.len());
+
+        Self::associated_data_at(path_segment, position)
+    }
+
+    /// Returns the associated data for signing/verification of the AS entry at index `position`
+    /// of the path segment: the raw protobuf encoded info of the path segment and the first
+    /// `position` AS entries of the path segment.
+    ///
+    /// Returns the total length of the associated data and an iterator over the associated data
+    /// slices.
+    #[inline]
+    pub fn associated_data_at<'seg>(
+        path_segment: &'seg PathSegment<SignedAsEntry>,
+        position: usize,
+    ) -> (usize, impl Iterator<Item = &'seg [u8]>) {
         let entry_iter = path_segment
             .as_entries
             .iter()
-            // Take all entries before the current one in the path segment.
-            .take_while(|e| e.entry != *self)
+            // Take all entries before the given position in the path segment.
+            .take(position)
             .flat_map(|entry| {
                 [
                     entry.signed.header_and_body.as_slice(),
@@ -1071,6 +1097,56 @@ mod tests {
             entry
                 .validate_signature(key_provider, &path_segment)
                 .unwrap();
+        }
+    }
+
+    /// A copy of an already signed entry appended to the segment was not signed over all
+    /// preceding entries and must not validate.
+    #[test]
+    fn appended_copy_of_signed_entry_fails_validation() {
+        let mac_key: ForwardingKey = [0u8; 16];
+        let key = p256::ecdsa::SigningKey::random(&mut OsRng);
+        let entry = |local: u64, ingress: u16, egress: u16| {
+            AsEntry {
+                local: IsdAsn::new(Isd(1), Asn(local)),
+                next: IsdAsn::new(Isd(1), Asn(local + 1)),
+                mtu: 1500,
+                hop_entry: HopEntry {
+                    ingress_mtu: 1500,
+                    hop_field: SegmentHopField {
+                        expiration_units: 10,
+                        cons_ingress: ingress,
+                        cons_egress: egress,
+                        mac: HopFieldMac([0; 6]),
+                    },
+                },
+                peer_entries: vec![],
+                extensions: vec![],
+                unsigned_extensions: vec![],
+            }
+        };
+
+        let mut path_segment = SignedPathSegment::empty(0, 0);
+        path_segment
+            .add_entry(entry(1, 0, 1), &key, None, &mac_key, 0)
+            .unwrap();
+        path_segment
+            .add_entry(entry(2, 2, 3), &key, None, &mac_key, 0)
+            .unwrap();
+
+        for copied in 0..2 {
+            let mut extended = path_segment.clone();
+            extended.as_entries.push(path_segment.as_entries[copied].clone());
+
+            let results: Vec<bool> = extended
+                .as_entries
+                .iter()
+                .map(|e| {
+                    e.validate_signature(|_: &[u8]| Ok(*key.verifying_key()), &extended)
+                        .is_ok()
+                })
+                .collect();
+            assert_eq!(results, vec![true, true, false]);
         }
     }
 
